@@ -644,7 +644,7 @@ func (rn *runner) runCase(hidx int, h []step, cc crashCase, worker, cpus int, ca
 		if len(diffs) > 6 {
 			diffs = diffs[:6]
 		}
-		c.Violation(fmt.Sprintf("%s|wal-generations-on-disk=%d", sig, gens), fmt.Sprintf("history %d, died before [%s] during step %d (%s), recovery: %s", hidx, dl, died, stepKind, strings.Join(diffs, "; ")),
+		c.Violation(fmt.Sprintf("%s|wal-generations-on-disk=%d|died-before=%s", sig, gens, cls), fmt.Sprintf("history %d, died before [%s] during step %d (%s), recovery: %s", hidx, dl, died, stepKind, strings.Join(diffs, "; ")),
 			witness(hidx, h, cc, died, map[string]any{"died_before": dl, "second_crash": second, "diff": diffs, "cpus": cpus, "wal_generations_on_disk": gens, "wal_partitions": walParts(cpus)}))
 		return
 	}
